@@ -1,17 +1,17 @@
 #!/bin/bash
 # lib/confirm_seed.sh <Cxx> <A|B>: re-confirm a seeded change in its scratch worktree /tmp/seed/<Cxx>:
 # with the change: library builds, demo FAILS, full ctest passes; without: demo PASSES.  Then store under /verif/seeded/.
-P=$1; V=$2; WT=/tmp/seed/$P; S=$WT/seed_out/$V; OUT=/verif/seeded/${P}_$V
+P=$1; V=$2; ROOT=${3:-/tmp/seed}; ON=${4:-$V}; WT=$ROOT/$P; S=$WT/seed_out/$V; OUT=/verif/seeded/${P}_$ON
 set -u
 cd $WT || exit 2
 git checkout -q -- src
 git apply $S/patch.diff || { echo "APPLY FAILED"; exit 2; }
 cmake --build _build >/dev/null 2>&1 || { echo "BUILD FAILED with change"; git checkout -q -- src; exit 2; }
-( cd $S && bash ./run_demo.sh ) > /tmp/seed/${P}_${V}_with.log 2>&1; RC_WITH=$?
+( cd $S && bash ./run_demo.sh ) > $ROOT/${P}_${V}_with.log 2>&1; RC_WITH=$?
 CT=$(flock /tmp/plibsys_ctest.lock ctest --test-dir $WT/_build -j8 --timeout 900 2>&1 | grep -E "tests passed|tests failed" | tail -1)
 git checkout -q -- src
 cmake --build _build >/dev/null 2>&1
-( cd $S && bash ./run_demo.sh ) > /tmp/seed/${P}_${V}_without.log 2>&1; RC_WITHOUT=$?
+( cd $S && bash ./run_demo.sh ) > $ROOT/${P}_${V}_without.log 2>&1; RC_WITHOUT=$?
 echo "$P/$V demo_with_change rc=$RC_WITH demo_without rc=$RC_WITHOUT ctest_with_change: $CT"
 if [ $RC_WITH -ne 0 ] && [ $RC_WITHOUT -eq 0 ] && echo "$CT" | grep -q "100% tests passed"; then
   mkdir -p $OUT && cp $S/patch.diff $S/demo.c $S/run_demo.sh $OUT/ 2>/dev/null; cp $S/*.c $S/*.sh $S/*.h $OUT/ 2>/dev/null
@@ -25,5 +25,5 @@ json.dump(m,open(sys.argv[2],"w"),indent=1)
 PY
   echo "CONFIRMED -> $OUT"
 else
-  echo "NOT CONFIRMED"; tail -5 /tmp/seed/${P}_${V}_with.log; tail -5 /tmp/seed/${P}_${V}_without.log
+  echo "NOT CONFIRMED"; tail -5 $ROOT/${P}_${V}_with.log; tail -5 $ROOT/${P}_${V}_without.log
 fi
